@@ -30,8 +30,9 @@ REGISTRY = dict(
           "min/clamp/Huber: PPO clipped surrogate (-A where the unclipped branch is the minimum, 0 otherwise, times the ratio through exp; pessimistic bound), optional value clipping, entropy term "
           "(analytic or -log_prob), A2C policy-gradient/value/entropy, DQN Huber loss (clamp(x,-1,1)) against r + gamma(1-done) max Q_target (bootstrap cut when done), SAC critic (min over target critics "
           "minus alpha*log pi), actor (alpha through log pi, -1 through the smaller critic only), temperature (-(log pi + H_target)), TD3 critic/actor, target-policy smoothing bounds, DDPG as the "
-          "special case, delayed-actor cadence, gradient-norm clipping (coefficient in (0,1], clipped norm <= max_norm); the executable Q twins compute these definitions (Q2R transfer) and agree with the "
-          "assembly lines regenerated from the train() methods. Tie: per-optimizer-step correspondence on real tiny training runs (loss, dL/d outputs, targets, pre-clip and at-step parameter "
+          "special case, delayed-actor cadence, gradient-norm clipping (coefficient in (0,1], clipped norm <= max_norm); the scalar helpers of the executable Q twins compute these definitions (Q2R transfer: TD target, Huber and its derivative, surrogate and its derivative, value prediction / gradient, "
+          "clip coefficient, TD3 next action, one gradient component of each kind) and every list component of the batch twins is that helper at the corresponding inputs; the twins agree with the "
+          "assembly lines regenerated from the train() methods (incl. the entropy signs, 1 -+ clip_range, the value-clip bound). Tie: per-optimizer-step correspondence on real tiny training runs (loss, dL/d outputs, targets, pre-clip and at-step parameter "
           "gradients, learning rate). Partial: torch autograd through the networks and the optimizer arithmetic are trusted; only SB3's loss assembly, batch wiring, clipping and lr application are decided."),
     note=("Axioms reported by Print Assumptions for Props/C07.v: ClassicalDedekindReals.sig_forall_dec, ClassicalDedekindReals.sig_not_dec, FunctionalExtensionality.functional_extensionality_dep, "
           "Classical_Prop.classic (Coq standard library real numbers) for the derivative / transfer theorems; the two fragment theorems over Q are closed under the global context. "
@@ -912,6 +913,12 @@ def main():
                             "evaluations = Q-twin comparisons (loss, dL/d outputs, targets, clip coefficient, lr) evaluated by vm_compute; traces = optimizer steps analysed; "
                             "non-trivial = configuration with >= 2 analysed optimizer steps")
     chk.notes["input_distribution"] = hist
+    # coverage gate: every algorithm's optimizer steps must actually have been analysed
+    for key in ("ppo_steps", "a2c_steps", "dqn_steps", "sac_critic_steps", "sac_actor_steps", "sac_temperature_steps", "td3_critic_steps", "td3_actor_steps", "rollout_cells_checked"):
+        if not hist.get(key):
+            chk.violation(f"coverage-gap-{key}", f"no {key} were analysed in this run: the correspondence for that algorithm did not happen", {"input_distribution": hist}, found_input=False)
+    chk.notes["branch_coverage_not_reached"] = [k for k in ("ppo_clipped_samples", "ppo_value_clipped", "clip_active", "clip_inactive", "dqn_done_in_batch", "dqn_huber_linear_branch",
+                                                            "td3_noise_clipped", "td3_action_clamped", "sac_done_in_batch", "td3_done_in_batch") if not hist.get(k)]
     chk.notes["corpus_cases"] = n_corpus
     chk.notes["configs"] = len(cfgs)
     chk.add_samples([{k2: v for k2, v in cfgs[i].items()} for i in (n_corpus, n_corpus + 7) if i < len(cfgs)])
